@@ -446,8 +446,16 @@ func bisyncTxnDebugSummary(cmds []bisyncAofCommand) string {
 	return strings.Join(parts, ",")
 }
 
-func (ro *RedisOutput) parseAofReplayUnits(replayQuit usync.WaitCloser, reader *bufio.Reader, startOffset int64, unitBuf chan *bisyncReplayUnit) error {
-	defer close(unitBuf)
+func (ro *RedisOutput) parseAofReplayUnits(replayQuit usync.WaitCloser, reader *bufio.Reader, startOffset int64, unitBuf chan *bisyncReplayUnit) (err error) {
+	// The senders take a closed unit channel for "input drained, replay complete" and return nil.
+	// The reason the parser stopped must therefore be published before they can see the closed
+	// channel: the first Close of replayQuit decides what Send returns.
+	defer func() {
+		if err != nil {
+			replayQuit.Close(err)
+		}
+		close(unitBuf)
+	}()
 	defer ro.logger.Infof("scheme1 replay-unit parser is stopped")
 	keyResolver, closeResolver := ro.newBisyncCommandKeyResolver()
 	defer closeResolver()
